@@ -65,7 +65,7 @@ def run_replay(ob, pid, tier):
     path = os.path.join(VERIF, "replays", f"{pid}-{safe}.json")
     rec = dict(property=pid, obligation=ob.oid, kind=ob.kind, function=ob.fn, backend=ob.backend, model=ob.model,
                replay=({k: v for k, v in ob.replay.items() if k not in ("vars", "funcs", "arrays")} if ob.replay else None),
-               verifier_output=ob.solver_output[:4000], repo=REPO, reproduced=None, observed=None)
+               verifier_output=(ob.solver_output or "")[:4000], note=ob.note, repo=REPO, reproduced=None, observed=None)
     with open(path, "w") as fh:
         json.dump(rec, fh, indent=1, default=str)
     if ob.replay is None or ob.replay.get("kind") is None:
